@@ -253,6 +253,10 @@ func checkC06(r *Run) {
 			target.bad -= target.bad % 3
 		}
 	}
+	if shape == "watermark_group_by" && posDraw%2 == 0 {
+		// near the end of the file: the end-of-stream release of the event-time buffer covers the last few event times
+		target.bad = max(0, target.rows-2-(posDraw/2)%4)
+	}
 	attrs := map[string]string{"source": kind, "shape": shape, "fault": fault}
 	if faultFree {
 		attrs["fault"] = "none"
@@ -331,12 +335,27 @@ func checkC06(r *Run) {
 			}
 			return fmt.Sprintf("SELECT %s FROM (SELECT * FROM %s LIMIT %d) x", sel, main.ref(), main.badOrZero()+1+limitSlack)
 		case "watermark_group_by":
-			arg := "id"
-			if withPanic && target == main {
-				arg = strings.ReplaceAll(panicTerm(main), "m.", "")
+			// Here exactly one row fails (not every row from the faulty one on), and in file order later event times
+			// follow it: a release of the event-time buffer that covers several event times goes on after the failure.
+			with := fmt.Sprintf("WITH w AS (SELECT * FROM max_diff_watermark(source=>TABLE(%s), max_diff=>INTERVAL 5 SECONDS, time_field=>DESCRIPTOR(t)) c) ", main.file)
+			only := func(col string) string {
+				return fmt.Sprintf("(%s < %s OR %s > %s OR panic('boom') = 'q')", col, main.lit(main.bad), col, main.lit(main.bad))
 			}
-			return fmt.Sprintf("WITH w AS (SELECT * FROM max_diff_watermark(source=>TABLE(%s), max_diff=>INTERVAL 5 SECONDS, time_field=>DESCRIPTOR(t)) c) "+
-				"SELECT t, COUNT(%s) AS cnt FROM w GROUP BY t TRIGGER ON WATERMARK", main.file, arg)
+			if limitSlack%2 == 0 {
+				// the failing expression is an aggregate argument, evaluated by the group-by while it handles a record
+				// that its event-time buffer releases
+				arg := "id"
+				if withPanic && target == main {
+					arg = only("id")
+				}
+				return with + fmt.Sprintf("SELECT t, COUNT(%s) AS cnt FROM w GROUP BY t TRIGGER ON WATERMARK", arg)
+			}
+			// the failing expression sits above a second group-by, which handles what the first one emits on a watermark
+			outerArg := "g.mx"
+			if withPanic && target == main {
+				outerArg = only("g.mx")
+			}
+			return with + "SELECT g.t, COUNT(" + outerArg + ") AS c2 FROM (SELECT t, MAX(id) AS mx FROM w GROUP BY t TRIGGER ON WATERMARK) g GROUP BY g.t TRIGGER ON WATERMARK"
 		case "count_star":
 			// uses no column of the table at all: the optimiser may prune every field of the datasource
 			return fmt.Sprintf("SELECT COUNT(*) AS c FROM %s%s", main.ref(), where(mWhere))
